@@ -70,6 +70,11 @@ CHECKS = {
         technique="bounded-exhaustive enumeration of header fields x message lists x {CRC, GCM} through the real codec; exhaustive enumeration of short send() sequences over boundary lengths x retry modes x MTUs, and of 254..300-message bursts, executed on the real client and both server send paths over a perfect virtual network",
         text="Codec: 4.3e5 (quick) / 2.2e6 packets: exact round trip, length/count exactness, datagram length, total_size, direction enforcement. Packing: every sequence of <=2 (quick) / 3 send() calls over 9 boundary lengths per retry mode plus mixed-mode triples and bursts, for 4 / 12 MTUs on UdpClient.update, TwistedServer.sendPacketsUnsafe and UdpServerThread.send: datagram <= MTU-28, no exception, nothing lost, fit-together.",
         note="no network faults in the packing part (C05/C06 cover those); lengths from the boundary set only; MTUs listed"),
+    "C18": dict(
+        engine="enum+bfs", category="model_checking", design="5/C18",
+        technique="exhaustive enumeration of all segmentations (2^(N-1) for N<=18 bytes, <=2/3 cuts for longer streams) of sequences of 1-3 client frames fed to the real WebSocketTemporaryHandler; frame writer/reader enumerated over opcodes x mask x boundary lengths against an independent RFC 6455 codec",
+        text="348 frame sequences x every way of cutting the byte stream into reads (3.5e6 segmentations quick): the endpoint must see every frame once, in order, unmasked, and no read may raise; first segmentation of each sequence also through HTTPFactory's Channel.dataReceived. Codec: 16 (quick) / ~3900 (thorough) payload lengths incl. 125/126/127 and 65535/65536 x 5 opcodes x mask 0/1 x keys.",
+        note="frames with fin=0 (message fragmentation) are outside the statement; client frames come from the reference encoder"),
 }
 
 NOT_YET = {
